@@ -93,8 +93,8 @@ def parse(text):
                     break
                 if mode == 'code':
                     if s.startswith('//@subst '):
-                        for kv in s[len('//@subst '):].split(','):
-                            a, b = kv.split('=')
+                        for kv in _split_top(s[len('//@subst '):]):
+                            a, b = kv.split('=', 1)
                             reg.subst[a.strip()] = b.strip()
                     elif s == '//@+':
                         flush_code()
@@ -169,19 +169,48 @@ def erased_tokens(reg):
     return out, owner
 
 
+def _split_top(text):
+    """split at commas that are not inside <..> or (..)"""
+    out, cur, depth = [], '', 0
+    for ch in text:
+        if ch in '<(':
+            depth += 1
+        elif ch in '>)':
+            depth -= 1
+        if ch == ',' and depth == 0:
+            out.append(cur); cur = ''
+        else:
+            cur += ch
+    if cur.strip():
+        out.append(cur)
+    return out
+
+
 def apply_subst(toks, subst):
+    """token substitution; a key is one identifier (`T`, `$DistType`) or a short token sequence (`T::DistType`); longer keys first"""
     if not subst:
         return toks
+    keys = sorted(((texts(lex(k)[0]), v) for k, v in subst.items()), key=lambda kv: -len(kv[0]))
     out = []
-    for (k, t, w, p) in toks:
-        if k == 'id' and t in subst:
-            sub = lex(subst[t])[0]
+    i = 0
+    n = len(toks)
+    while i < n:
+        (k, t, w, p) = toks[i]
+        hit = None
+        if k == 'id':
+            for (kt, v) in keys:
+                if [x[1] for x in toks[i:i + len(kt)]] == kt:
+                    hit = (kt, v)
+                    break
+        if hit:
             first = True
-            for (k2, t2, w2, _p2) in sub:
+            for (k2, t2, w2, _p2) in lex(hit[1])[0]:
                 out.append((k2, t2, w if first else w2, p))
                 first = False
+            i += len(hit[0])
         else:
             out.append((k, t, w, p))
+            i += 1
     return out
 
 
